@@ -49,6 +49,10 @@ def decorator_rule(check: Check) -> None:
     fn = p.func("Settings.context")
     deco = [p.resolve_global(d, fn.module) if "." not in d else d for d in
             [dotted(x.func if isinstance(x, ast.Call) else x) or "" for x in fn.node.decorator_list]]
+    if not any(isinstance(x, (ast.Yield, ast.YieldFrom)) for x in ast.walk(fn.node)):
+        # not a generator: Y-sem established that it returns an object of the package with __enter__ / __exit__ (or failed as an analysis error)
+        check.ok("Y1", "Settings.context/decorator", "context returns a context-manager object (its __enter__ / __exit__ are interpreted by Y-sem)", loc(fn))
+        return
     check.require(any(d in ("contextlib.contextmanager",) for d in deco), "Y1", "Settings.context/decorator",
                   f"context is a contextlib.contextmanager generator (decorators: {deco})", loc(fn))
 
@@ -79,15 +83,41 @@ def context_params(fn, program=None) -> tuple[list[str], dict[str, str]]:
                         v_ = defaults_[v_.id]  # what a Settings() built without arguments holds
                     if isinstance(v_, ast.Constant) and v_.value is None:
                         none_attrs.add(t.attr)
+    is_generator = any(isinstance(x, (ast.Yield, ast.YieldFrom)) for x in ast.walk(fn.analysis_node))
     for prm in params:
         obj = MObj("Settings", {a: ("old", a) for a in attrs})
         seen: dict[str, object] = {}
+        if not is_generator:  # an object with __enter__ / __exit__: what the settings hold once it is entered
+            from ..objexec import ObjExec
+            from .roundtrip_sem import E0
+
+            ox = ObjExec(program, "Settings.context")
+            try:
+                cm = ox.invoke(fn, [obj], {prm: ("probe", prm)}, E0)
+                ci = ox.class_of(cm)
+                if ci is None or ci.lookup("__enter__") is None:
+                    raise AnalysisError("Settings.context is neither a generator nor returns an object of the package with __enter__ / __exit__")
+                ox.invoke(ci.lookup("__enter__"), [cm], {}, E0)
+            except (Raised, Internal):
+                pass
+            except Unknown as u:
+                raise AnalysisError(str(u)) from None
+            seen.update(obj.fields)
+            holders = [a for a, v in seen.items() if v == ("probe", prm)]
+            if len(holders) == 1 and holders[0] != prm:
+                renames[prm] = holders[0]
+            elif not holders:
+                renames[prm] = f"<no attribute holds the requested {prm} inside the context>"
+            continue
 
         def on_yield(ex_, e, value, env, obj=obj, seen=seen):
             seen.update(obj.fields)
             raise _Return(None)
 
         ex = AbsExec(fn.qualname, {"yield": on_yield}, helpers={k: v for k, v in fn.cls.methods.items() if k != fn.name} if fn.cls is not None else None)
+        if fn.cls is not None:
+            for pname in fn.cls.setters:
+                ex.properties[(obj.cls, pname)] = (fn.cls.lookup_getter(pname), fn.cls.setters.get(pname))
         env = {"self": obj, **{q: (("probe", prm) if q == prm else None) for q in params}}
         try:
             ex.block(list(fn.analysis_node.body), env)
@@ -313,6 +343,9 @@ def context_semantics(check: Check) -> None:
 
         ex = AbsExec(fn.qualname, {"yield": on_yield, "builtin:setattr": refusing_setattr},
                      helpers={k: v for k, v in fn.cls.methods.items() if k != fn.name} if fn.cls is not None else None)
+        if fn.cls is not None:  # the properties of the settings class (the lazily built factory manager, the debugging switch) answer getattr / setattr too
+            for pname in fn.cls.setters:
+                ex.properties[(obj.cls, pname)] = (fn.cls.lookup_getter(pname), fn.cls.setters.get(pname))
         env = {"self": obj}
         for prm in params:
             env[prm] = (("old", attr_of[prm]) if same else ("new", tag, prm)) if prm in named else None
@@ -327,6 +360,54 @@ def context_semantics(check: Check) -> None:
         if state["yields"] != 1:
             return "yields", str(state["yields"])
         return "ok", None
+
+    is_generator = any(isinstance(x, (ast.Yield, ast.YieldFrom)) for x in ast.walk(node))
+    generator_run = run_context
+    cm_classes: set[str] = set()
+
+    def run_context_object(obj: MObj, named: tuple[str, ...], tag: str, body, same: bool = False, fail_at: int = 0, reenter: bool = False) -> tuple[str, str | None]:
+        """The same experiment when `context` is not a generator but returns an object with `__enter__` / `__exit__` (interpreted with sa/objexec.py):
+        context(...) is called, the object entered, the body run, the object left with the body's exception (or none). `reenter`: the *same* object
+        is entered a second time inside its own body and left again - what a `ContextDecorator` used on a recursive function does."""
+        from ..objexec import ObjExec
+        from .roundtrip_sem import E0
+
+        ex = ObjExec(p, "Settings.context")
+        ex.globals.update({"nan": float("nan"), "inf": float("inf")})
+        kw = {prm: (("old", attr_of[prm]) if same else ("new", tag, prm)) for prm in params if prm in named}
+        try:
+            cm = ex.invoke(fn, [obj], kw, E0)
+            ci = ex.class_of(cm)
+            if ci is None or ci.lookup("__enter__") is None or ci.lookup("__exit__") is None:
+                raise Unknown("Settings.context is neither a generator nor returns an object of the package with __enter__ / __exit__")
+            cm_classes.add(ci.qualname)
+            ex.invoke(ci.lookup("__enter__"), [cm], {}, E0)
+        except Raised as r:
+            return "raise-before-yield", r.cls
+        except Internal as i:
+            return "internal", f"{i.cls}: {i.why}"
+        exc: Raised | None = None
+        try:
+            if reenter:
+                ex.invoke(ci.lookup("__enter__"), [cm], {}, E0)
+                ex.invoke(ci.lookup("__exit__"), [cm, None, None, None], {}, E0)
+            body(obj)
+        except Raised as r:
+            exc = r
+        except Internal as i:
+            return "internal", f"{i.cls}: {i.why}"
+        try:
+            res = ex.invoke(ci.lookup("__exit__"), [cm] + ([("exc-class", exc.cls), MObj("<exception>", {"cls": exc.cls}), MObj("<traceback>", {})] if exc else [None, None, None]), {}, E0)
+        except Raised as r:
+            return "raise", r.cls
+        except Internal as i:
+            return "internal", f"{i.cls}: {i.why}"
+        if exc is not None:
+            return ("ok", None) if (res is not None and ex.truth(res, E0)) else ("raise", exc.cls)
+        return "ok", None
+
+    if not is_generator:
+        run_context = run_context_object  # noqa: F811
 
     initial_none = [False]
 
@@ -391,7 +472,7 @@ def context_semantics(check: Check) -> None:
         # context is being entered: the settings already applied must not stay behind
         validating = fn.cls is not None and ("__setattr__" in fn.cls.methods or any(
             any(isinstance(x, ast.Raise) for x in ast.walk(st.node)) for st in fn.cls.setters.values()))
-        if validating:
+        if validating and is_generator:
             for named in [c for c in subsets if len(c) == 2][:6]:
                 for k in (1, 2):
                     cases += 1
@@ -423,6 +504,21 @@ def context_semantics(check: Check) -> None:
                 run_context(obj, outer, "c1", outer_body)
                 if obj.fields != {a: ("old", a) for a in attrs}:
                     note("nesting", f"nested contexts ({', '.join(outer)}) / ({', '.join(inner)}): afterwards the settings are not the initial ones")
+        if not is_generator:
+            # an object that can be entered again while it is active (contextlib.ContextDecorator hands the *same* object to every call of the decorated
+            # function unless `_recreate_cm` is overridden; the generator-based manager is recreated per call): the settings must still come back
+            for cq in sorted(cm_classes):
+                ci_ = p.classes[cq]
+                decorator = any(getattr(b, "id", getattr(b, "attr", "")) == "ContextDecorator" for k_ in ci_.mro for b in k_.node.bases)
+                if decorator and ci_.lookup("_recreate_cm") is None:
+                    for named in [c for c in subsets if len(c) in (1, 2)][:6]:
+                        cases += 1
+                        obj = fresh()
+                        outcome, cls = run_context_object(obj, named, "c1", lambda o: None, False, 0, True)
+                        if obj.fields != {a: ("old", a) for a in attrs}:
+                            left = sorted(a for a, v in obj.fields.items() if v != ("old", a))
+                            note("nesting", f"context({', '.join(named)}) used as a decorator (contextlib.ContextDecorator hands the same object to every call) on a function "
+                                            f"that calls itself: the second entry overwrites what the first saved, and afterwards {left} keep the temporary value(s)")
     except Unknown as u:
         raise AnalysisError(str(u)) from None
 
